@@ -93,6 +93,18 @@ inline bool ptr_is_heap(const void* p) {
     return false;
 }
 
+// size and alignment the library asked for when it allocated the live block that contains `p`
+inline bool block_info(const void* p, std::size_t& sz, std::size_t& al) {
+    Ledger& L = ledger();
+    auto a = reinterpret_cast<std::uintptr_t>(p);
+    std::lock_guard<std::mutex> g(L.mu);
+    for (auto& e : L.live) {
+        auto b = reinterpret_cast<std::uintptr_t>(e.first);
+        if (a >= b && a < b + e.second.first) { sz = e.second.first; al = e.second.second; return true; }
+    }
+    return false;
+}
+
 // ---------- hex ----------
 inline std::string hex(std::string_view s) {
     if (s.empty()) return "-";
@@ -234,8 +246,16 @@ struct Walker {
                     ++n_values;
                     auto [gp, gsz, gal] = value::get_gc_info(vp);
                     (void) gp;
-                    value_bytes += gsz;
-                    bump(level, gsz, gsz, false);
+                    // the walker's own count uses what was really allocated (interposer), not what the
+                    // value header says about itself
+                    std::size_t asz = 0, aal = 0;
+                    if (ledger().enabled && block_info(value::get_body(vp), asz, aal)) {
+                        if (asz != gsz) err("value block of " + std::to_string(asz) + " bytes describes itself as " + std::to_string(gsz) + " bytes (get_gc_info) in layer " + hex(pfx));
+                    } else {
+                        asz = gsz;
+                    }
+                    value_bytes += asz;
+                    bump(level, asz, asz, false);
                     std::size_t len = value::get_len(vp);
                     o << " V " << len << " " << std::hex << fnv(value::get_body(vp), len) << std::dec << " "
                       << static_cast<std::size_t>(gal);
